@@ -18,7 +18,6 @@ import (
 	"errors"
 	"fmt"
 	"math"
-	"regexp"
 	"strconv"
 	"strings"
 	"time"
@@ -374,7 +373,7 @@ func nextScanArgument(cmd string, args Arguments) (ScanOption, error) {
 			if err != nil {
 				return opt, err
 			}
-			opt.MatchPattern, err = regexp.Compile(pattern)
+			opt.MatchPattern, err = glob.Compile(pattern)
 			if err != nil {
 				return opt, newInvalidArgumentError(cmd, "pattern", err)
 			}
@@ -383,7 +382,7 @@ func nextScanArgument(cmd string, args Arguments) (ScanOption, error) {
 			if err != nil {
 				return opt, err
 			}
-		case "Type":
+		case "TYPE":
 			var scanType string
 			scanType, err = nextStringArgument(cmd, "type", args)
 			if err != nil {
